@@ -172,12 +172,13 @@ def run(ctx):
     tmpbase = os.path.join(shm, "verif_c17_%d" % os.getpid())
     parts = []
     if ctx.tier == "thorough":
+        # part k = the graph indices congruent to k modulo nparts: if the machine is so loaded that not all parts can
+        # be started within the budget, what has run is still spread evenly over the whole space
         nparts = 42
-        step = (TOTAL_GRAPHS + nparts - 1) // nparts
-        for k in range(nparts):
-            parts.append(("x%02d" % k, ["-stream", "exh", "-lo", str(k * step), "-hi", str(min(TOTAL_GRAPHS, (k + 1) * step)),
-                                        "-per", "3300", "-compact"]))
         parts.append(("e", ["-stream", "explicit", "-seed", str(ctx.seed), "-rand", "3000", "-paths", "3000", "-per", "150"]))
+        for k in range(nparts):
+            parts.append(("x%02d" % k, ["-stream", "exh", "-lo", "0", "-hi", str(TOTAL_GRAPHS), "-parts", str(nparts),
+                                        "-part", str(k), "-per", "3300", "-compact"]))
         exhaustive = True
     else:
         nparts = 7
@@ -187,11 +188,29 @@ def run(ctx):
         parts.append(("e", ["-stream", "explicit", "-seed", str(ctx.seed), "-rand", "250", "-paths", "250", "-per", "140"]))
         exhaustive = False
     results = []
+    import time
+    start_budget = float(os.environ.get("VERIF_C17_START_BUDGET_S", "600"))
+    t_start = time.time()
+
+    def guarded(tag, args):
+        if tag != "e" and time.time() - t_start > start_budget:
+            return None     # not started: the 20-minute budget of the tier would be exceeded
+        return _run_part(ctx, binp, tag, args, os.path.join(tmpbase, tag))
+
+    skipped = 0
     with ThreadPoolExecutor(max_workers=14) as ex:
-        futs = [ex.submit(_run_part, ctx, binp, tag, args, os.path.join(tmpbase, tag)) for tag, args in parts]
+        futs = [ex.submit(guarded, tag, args) for tag, args in parts]
         for f in futs:
-            results.append(f.result())
+            r = f.result()
+            if r is None:
+                skipped += 1
+            else:
+                results.append(r)
     shutil.rmtree(tmpbase, ignore_errors=True)
+    if skipped:
+        exhaustive = False
+        ctx.notes.append("%d of %d exhaustive-stream parts were not started within %ds (machine load); the parts that ran "
+                         "are residue classes of the graph index, i.e. spread evenly over the space" % (skipped, len(parts) - 1, start_budget))
     graphs = sum(r["summary"].get("graphs", 0) for r in results)
     explicit = sum(r["summary"].get("cases", 0) for r in results)
     evals = sum(r["summary"]["evaluations"] for r in results)
@@ -270,7 +289,8 @@ def run(ctx):
         },
         "vm_compute_cases": graphs * 7 + explicit,
         "explanation": ("every one of the 14^5 = 537824 graphs x depths 0..6 was run" if exhaustive else
-                        "a seeded sample of %d of the 537824 graphs x depths 0..6 was run (thorough tier runs all)" % graphs)
+                        "%d of the 537824 graphs x depths 0..6 were run (quick: seeded sample; thorough runs all unless "
+                        "the machine is overloaded)" % graphs)
                        + "; chains/rand3/paths streams use 3-layer images so that whiteout nodes are visible in a middle view",
     })
     ctx.coverage["trusted_base"] = vlib.std_trusted_base(pa, tb_extra)
